@@ -83,7 +83,7 @@ func (TrafficOrderMonitor) OnWrite(x *Ctx, w *Write) {
 				} else if ro.Status.BlueGreenStatus != nil {
 					stableRev = ro.Status.BlueGreenStatus.StableRevision
 				}
-				if v != nil && ts.StableSvcExists && ts.StablePinned != shortHash(stableRev) && ro.Spec.Strategy.BlueGreen == nil {
+				if v != nil && ts.StableSvcExists && ts.StablePinned != shortHash(stableRev) {
 					x.Violate("C03/pin/first-step-pods-before-stable-pinned", fmt.Sprintf("step 1 configures traffic but the workload was allowed to create new-revision pods (%s) while the stable Service selector is %q, not pinned to the stable revision %q", v.KnobText, ts.StablePinned, stableRev))
 				}
 			}
@@ -409,11 +409,24 @@ func (RollbackOrderMonitor) OnState(x *Ctx, quiescent bool) {
 		return
 	}
 	ro := getRollout(x.W, x.Sc)
-	if ro == nil || ro.Status.Phase != rolloutsv1beta1.RolloutPhaseHealthy {
+	if ro == nil {
+		return
+	}
+	cancelled := x.Mon["ctx.brAtCancel"]
+	if ro.Status.Phase == rolloutsv1beta1.RolloutPhaseProgressing && progressingReason(ro) == "InRolling" && cancelled != "" && cancelled != "none" &&
+		x.Sc.Traffic != "" && !ro.Spec.Strategy.Paused && ro.DeletionTimestamp == nil && !ro.Spec.Disabled {
+		// nothing will happen any more, and the reverted release has neither been cancelled nor has it ended
+		x.Count("C10 settled states after rollback judged")
+		if wl := getWorkload(x.W, x.Sc); wl != nil && !rollbackVisible(wl) {
+			x.Mon["ctx.revertNotVisible"] = "1" // the workload's own status does not show a rollback in progress (known blind spot)
+		}
+		x.Violate("C10/end/reverted-release-not-cancelled/"+x.Sc.Kind+"-"+x.Sc.Style+revertContext(x.Mon), "the release was reverted during the rollout; every controller is idle and nothing is pending, but the Rollout is still Progressing / InRolling ("+ro.Status.Message+"): the release was never cancelled")
+		return
+	}
+	if ro.Status.Phase != rolloutsv1beta1.RolloutPhaseHealthy {
 		return
 	}
 	x.Count("C10 settled states after rollback judged")
-	cancelled := x.Mon["ctx.brAtCancel"]
 	if cancelled == "" || cancelled == "none" {
 		return // the revert did not arrive during a rollout
 	}
